@@ -119,7 +119,7 @@ def build_lib(flavor="plain", extra_defs=()):
     procs = []
     for s, o in zip(LIBSRC, objs):
         cmd = [cc] + BASEFLAGS + flags + ["-I" + os.path.join(REPO, "include"), "-c",
-                                         os.path.join(REPO, "src", s), "-o", o + ".tmp"]
+                                         os.path.join(REPO, "src", s), "-o", o + ".%d.tmp" % os.getpid()]
         procs.append((cmd, o, subprocess.Popen(cmd, stdout=subprocess.PIPE, stderr=subprocess.PIPE, text=True)))
     for cmd, o, p in procs:
         try:
@@ -129,7 +129,7 @@ def build_lib(flavor="plain", extra_defs=()):
             raise Infra("library compile timed out: " + " ".join(cmd))
         if p.returncode != 0:
             raise Infra("library does not compile with hooks on (%s):\n%s" % (" ".join(cmd), err[-4000:]))
-        os.replace(o + ".tmp", o)
+        os.replace(o + ".%d.tmp" % os.getpid(), o)      # per-process temporary, atomic publication: checks of several properties may build the same library side by side
     _gc_builds()
     return objs
 
@@ -151,7 +151,7 @@ def build_harness(name, flavor="plain", sources=None, link_lib=True, extra_defs=
     hobjs = []
     procs = []
     for s in srcs:
-        o = os.path.join(d, os.path.basename(s) + ".o")
+        o = os.path.join(d, os.path.basename(s) + ".%d.o" % os.getpid())
         cmd = [cc] + BASEFLAGS + flags + ["-I" + os.path.join(REPO, "include"), "-I" + HARNESS, "-c", s, "-o", o]
         procs.append((cmd, subprocess.Popen(cmd, stdout=subprocess.PIPE, stderr=subprocess.PIPE, text=True)))
         hobjs.append(o)
@@ -163,11 +163,16 @@ def build_harness(name, flavor="plain", sources=None, link_lib=True, extra_defs=
             raise Infra("harness compile timed out: " + " ".join(cmd))
         if p.returncode != 0:
             raise Infra("harness does not compile against the current tree (%s):\n%s" % (" ".join(cmd), err[-6000:]))
-    cmd = [cc] + flags + hobjs + objs + ["-o", exe + ".tmp"] + LIBS
+    cmd = [cc] + flags + hobjs + objs + ["-o", exe + ".%d.tmp" % os.getpid()] + LIBS
     p = sh(cmd, timeout=600)
     if p.returncode != 0:
         raise Infra("link failed: %s\n%s" % (" ".join(cmd), p.stderr[-4000:]))
-    os.replace(exe + ".tmp", exe)
+    os.replace(exe + ".%d.tmp" % os.getpid(), exe)
+    for o in hobjs:
+        try:
+            os.remove(o)
+        except OSError:
+            pass
     return exe
 
 
@@ -211,6 +216,21 @@ class TlcResult:
         self.error = None
         self.edges = []
         self.wall = 0.0
+
+
+_cfgdir = None
+
+
+def cfgdir():
+    """directory for generated TLC configurations, private to this process: two checks running side by side (other tier, other seed,
+    or the same property twice) must never read each other's half-written or differently parameterised configuration"""
+    global _cfgdir
+    if _cfgdir is None or not os.path.isdir(_cfgdir):
+        import atexit
+        _cfgdir = os.path.join(BUILD, "cfg_%d" % os.getpid())
+        os.makedirs(_cfgdir, exist_ok=True)
+        atexit.register(shutil.rmtree, _cfgdir, True)
+    return _cfgdir
 
 
 def tlc(module, cfg, workers=None, timeout=600, simulate=None, depth=None, seed=None, env=None,
